@@ -58,6 +58,13 @@ partial def exprOf : SX → Option Expr
   | .node "log" [a] => do pure (.log (← exprOf a))
   | .node "typeof" [.node x []] => some (.typeofVar x)
   | .node "var" [.node x []] => some (.var x)
+  | .node "obj" fs => do
+      let fields ← fs.mapM (fun f => match f with
+        | .node k [.node a []] => (match atomVal a with
+          | some (.num n) => some (k, n)
+          | _ => none)
+        | _ => none)
+      pure (.objLit fields)
   | .node a [] => (atomVal a).map .lit
   | _ => none
 
@@ -83,6 +90,7 @@ partial def stmtOf : SX → Option Stmt
   | .node "Y" [.node "B" b, .node hc [], .node p [], .node "B" c, .node hf [], .node "B" f] => do
       pure (.tryS (← stmtsOf b) (hc = "1") p (← stmtsOf c) (hf = "1") (← stmtsOf f))
   | .node "S" (d :: cs) => do pure (.switchS (← exprOf d) (← casesOf cs))
+  | .node "Wi" [o, b] => do pure (.withS (← exprOf o) (← stmtOf b))
   | _ => none
 partial def stmtsOf : List SX → Option Stmts
   | [] => some .nil
@@ -99,6 +107,7 @@ def valTok : Val → String
   | .num n => "n" ++ toString n
   | .str s => "s" ++ s
   | .err n => "err:" ++ n
+  | .obj _ => "obj:Object"
 
 def traceTok (t : List Val) : String := "t:[" ++ ",".intercalate (t.map valTok) ++ "]"
 
